@@ -66,6 +66,12 @@ void harness (void)
 	pixman_bool_t ok2 = pixman_image_set_filter (a, PIXMAN_FILTER_CONVOLUTION, params, 3);
 	if (ok2) VP_ASSERT (a->common.filter == PIXMAN_FILTER_CONVOLUTION && a->common.filter_params[2] == 65536, "filter installed");
 	else VP_ASSERT (a->common.filter == PIXMAN_FILTER_NEAREST && a->common.filter_params == NULL, "failed set_filter leaves the old filter");
+	if (ok2)
+	{   /* replace existing parameters: a failure must keep the old block alive and owned exactly once */
+	    pixman_fixed_t params2[3] = { 65536, 65536, 2 * 65536 };
+	    pixman_bool_t ok3 = pixman_image_set_filter (a, PIXMAN_FILTER_CONVOLUTION, params2, 3);
+	    VP_ASSERT (a->common.filter_params != NULL && a->common.filter_params[2] == (ok3 ? 2 * 65536 : 65536), "after a (failed) replacement the image owns valid parameters: the new ones on success, the old ones on failure");
+	}
 	pixman_image_unref (a);
     }
 #elif SCRIPT == 3	/* region copy: FALSE leaves the designated broken region, which propagates and is accepted by fini */
